@@ -14,6 +14,7 @@ import (
 	"fmt"
 	"sort"
 	"strings"
+	"sync"
 	"testing"
 	"time"
 
@@ -229,22 +230,48 @@ func TestC24(t *testing.T) {
 			for _, sb := range subs {
 				sb.ch = st.WorkloadStatusStream(sctx, sb.a, sb.e, sb.n, nil)
 			}
-			time.Sleep(100 * time.Millisecond) // let the watches get established
+			var gmu sync.Mutex
 			done := make(chan struct{})
 			for _, sb := range subs {
 				go func(sb *sub) {
 					for m := range sb.ch {
 						if m != nil {
+							gmu.Lock()
 							sb.got[m.ID] = true
+							gmu.Unlock()
 						}
 					}
 					done <- struct{}{}
 				}(sb)
 			}
-			for _, w := range c.Workloads {
-				_ = st.SetWorkloadStatus(ctx, &types.StatusMeta{ID: w.ID, Appname: w.App, Entrypoint: w.Entry, Nodename: w.Node, Running: true}, 0)
+			// A watch only delivers what changes after it is established, and how long that takes is the machine's
+			// business, not the property's: every workload's status is therefore CHANGED again in every round until
+			// each subscription has seen everything it must see (at most 60 rounds). A subscription that drops a
+			// workload drops it in every round; one that leaks a foreign workload leaks it in every round.
+			complete := func() bool {
+				gmu.Lock()
+				defer gmu.Unlock()
+				for _, sb := range subs {
+					for _, id := range strings.Split(want(sb.a, sb.e, sb.n), ",") {
+						if id != "" && !sb.got[id] {
+							return false
+						}
+					}
+				}
+				return true
 			}
-			time.Sleep(250 * time.Millisecond)
+			rounds := 0
+			for ; rounds < 60; rounds++ {
+				for _, w := range c.Workloads {
+					_ = st.SetWorkloadStatus(ctx, &types.StatusMeta{ID: w.ID, Appname: w.App, Entrypoint: w.Entry, Nodename: w.Node, Running: rounds%2 == 0, Extension: []byte(fmt.Sprint(rounds))}, 0)
+				}
+				time.Sleep(60 * time.Millisecond)
+				if rounds >= 1 && complete() {
+					break
+				}
+			}
+			rec.Count("status_stream_rounds_needed", rounds+1)
+			time.Sleep(150 * time.Millisecond)
 			cancel()
 			for range subs {
 				select {
